@@ -6,7 +6,7 @@
    call of Start, so deaths inside start-up recovery — also of an incarnation that is itself
    recovering from a death — are included); [run_history c store0 h] starts from the empty store. *)
 From Verif Require Import Common.Base C01.Model C01.Spec C01.Proofs1 C01.Proofs2 C01.Proofs3 C01.Proofs4 C01.Proofs5 C01.Proofs6.
-From Coq Require Import Sorted.
+From Coq Require Import Sorted Permutation.
 
 (* ---- codecs ---- *)
 Theorem codec_roundtrip :
@@ -149,3 +149,17 @@ Theorem retry_interrupted_by_shutdown_keeps : forall rs s tail n,
   outcome_of_send (fst (send_model rs (Some s) tail n)) = OShutdown.
 Proof. exact send_retryable_then_stop. Qed.
 Print Assumptions retry_interrupted_by_shutdown_keeps.
+
+(* ---- a hand-off made in several pieces (sending_queue::batch with max_size; refCountDone) ----
+   The stored request's Done receives a FINAL outcome only if every piece ended with a final outcome (one piece
+   interrupted by shutdown makes the whole hand-off "interrupted": the request stays stored); it receives success
+   only if every piece succeeded; the order in which the pieces complete is irrelevant. *)
+Theorem split_handoff_final_only_if_all_pieces_final : forall l,
+  (combine_outcomes l <> OShutdown <-> Forall (fun o => o <> OShutdown) l) /\
+  (combine_outcomes l = OOk <-> Forall (fun o => o = OOk) l).
+Proof. exact (fun l => conj (combine_final_iff l) (combine_ok_iff l)). Qed.
+Print Assumptions split_handoff_final_only_if_all_pieces_final.
+
+Theorem split_handoff_order_irrelevant : forall l l', Permutation l l' -> combine_outcomes l = combine_outcomes l'.
+Proof. exact combine_perm. Qed.
+Print Assumptions split_handoff_order_irrelevant.
